@@ -188,9 +188,14 @@ def run_pool(pid, cases, env, workdir, nworkers, default_timeout, startup=240.0,
     def slot(k):
         errpath = os.path.join(workdir, "worker-%d.err" % k)
         w = None
+        # one JIT cache directory per worker slot of this run: numba's on-disk cache is not
+        # safe under concurrent writers (seen once each: a cached kernel that could not unbox
+        # its ndarray argument until the cache was deleted, and wrong block placements in a
+        # run in which 16 workers were filling one cold cache) - no two processes share one
+        env_k = dict(env, NUMBA_CACHE_DIR=os.path.join(workdir, "nbcache-s%d" % k))
 
         def fresh_worker(pyopt=False, nojit=False, threads=0):
-            ww = Worker(pid, env, errpath, pyopt, nojit, threads)
+            ww = Worker(pid, env_k, errpath, pyopt, nojit, threads)
             msg = ww.recv(startup)
             if not (isinstance(msg, dict) and msg.get("ready")):
                 ww.kill()
